@@ -21,6 +21,7 @@ type Prog struct {
 	Specs   map[string]*spec.FuncSpec // pkgpath::name
 	FnSpecs map[string]*spec.FuncSpec
 	Macros  map[string]*spec.Macro
+	GlobalInvs map[string][]*spec.Clause // package path -> assumed package invariants
 	ModPath string
 
 	mutGlobals map[*ssa.Global]bool // globals written outside init
@@ -72,6 +73,9 @@ type VC struct {
 	noSafety  bool
 	splitInfo string
 	entryEnv  *Env
+	sums      map[string][]*sumInst
+	frameProps []string
+	sumCache  map[string]*sumInst
 }
 
 func Key(pkg, name string) string { return pkg + "::" + name }
